@@ -693,9 +693,14 @@ func registerC15() {
 	mk := func(name string, count map[string]int, maxOps int) *Workload {
 		bulk := name == "bulk-histories"
 		return &Workload{
-			Name:     name,
-			Count:    func(tier string) int { return count[tier] },
-			Gen:      func(i int, t *Tape, tier string) any { return genListCase(t, maxOps, bulk) },
+			Name:  name,
+			Count: func(tier string) int { return count[tier] },
+			Gen: func(i int, t *Tape, tier string) any {
+				if tier == "thorough" {
+					return genListCase(t, maxOps*5/2, bulk)
+				}
+				return genListCase(t, maxOps, bulk)
+			},
 			Run:      func(c any, keep bool) Outcome { return runListCase(c.(*ListCase), keep) },
 			New:      func() any { return &ListCase{} },
 			Simplify: simplifyList,
